@@ -18,6 +18,10 @@ rejuvenations, reads, availability tests and `ds.features` on any level.
 * systematic "cache, edit, read" triples: every feature is read on level L, one edit is made,
   every feature is read again (all edits x levels in the thorough tier, a stratified sample in
   the quick tier);
+* systematic "read, switch, read" histories (`switch_triples`, derived from the registry, always
+  run): an item one recipe of a multi-recipe feature needs (temporary feature, configuration key,
+  key its requirement function looks at) is added / removed between reads on every level, so the
+  recipe that applies or the availability changes while data of another recipe are cached;
 * model correspondence: the abstract trace of every read that reaches the root (selected
   recipe, base/hit/miss, which cache entries were written, what the hash covered) is compared
   with the Lean model (`lean/Drive/C06.lean`) through the line protocol; recording proxies
@@ -68,8 +72,15 @@ RULE = ("Histories of 5-40 operations over three dataset kinds (two-channel dict
         "Per root read / `in`: observed nesting depth of "
         "is_available and __getitem__ vs the model's rank bound (`fuel`), and for emodulus / "
         "crosstalk reads the model's closed-form availability gap vs 'available but raises' "
-        "(`gap`). The random-history phase is bounded by work units (judged operations: quick "
-        "1300, thorough 16000), not by the clock; wall-clock caps are safety limits only.")
+        "(`gap`). Systematic 'read, switch, read' histories derived from the registry (always "
+        "run, both tiers): for every feature with more than one recipe or a named requirement "
+        "function, every recipe, every item it needs (a required feature the dataset lacks, added "
+        "as a temporary feature, e.g. fl3_max / temp; a required configuration key; a key its "
+        "requirement function looks at, e.g. chip region) and every hierarchy level: read with the "
+        "item missing, add it, read, remove it (keys), read — the applicable recipe or the "
+        "availability changes under cached data. "
+        "The random-history phase is bounded by work units (judged operations: quick "
+        "950, thorough 16000), not by the clock; wall-clock caps are safety limits only.")
 TRUSTED_BASE = [
     "modelled, not verified: md5 and util.obj2bytes (the hash is modelled as the structured "
     "list of what is fed to md5; byte-level concatenation collisions are outside the model); "
@@ -88,8 +99,9 @@ TRUSTED_BASE = [
     "validated dynamically by recording proxies in every scenario the harness executes",
     "the numeric recipes themselves are parameters of the model (C05, C18)"]
 ASSUMPTIONS = [
-    "set_temporary_feature is used with names registered as temporary features (or "
-    "ml_score_*), never to shadow bg_off / fl?_max or an ancillary feature",
+    "set_temporary_feature is used with names registered as temporary features, ml_score_* or "
+    "standard features the dataset does NOT contain (fl3_max, temp in the switch histories); "
+    "never to shadow data that are present (bg_off / fl?_max) or an ancillary feature",
     "ml_score_* features are innate or temporary data, not themselves plug-in features",
     "datasets without basins (basins are property C07)",
     "a hierarchy child is rejuvenated before it is used when an ancestor's configuration, "
@@ -139,7 +151,7 @@ class Budget:
 #: only to the open-ended parts — the sampled remainder of the triples and the random histories
 #: beyond a guaranteed minimum number — never to the systematic parts (combinations, corpus,
 #: stratified triples)
-HIST_UNITS = (1300, 16000)
+HIST_UNITS = (950, 16000)
 HIST_MIN = (40, 300)
 WALL_CAP_TRIPLES = (300, 500)
 WALL_CAP_HIST = (330, 690)
@@ -284,6 +296,10 @@ def temp_data(name, k, n=NEV):
     if name.startswith("ml_score"):
         a = (np.arange(n) * (k + 2) * (3 if name.endswith("abc") else 5) + k) % 11
         return a / 10.0
+    if name == "temp":                       # chip temperature [degC]
+        return np.linspace(22.0, 24.0, n) + k / 4
+    if name.startswith("fl") and name.endswith("_max"):
+        return np.linspace(30, 60, n) + np.arange(n) % 3 + k
     return np.linspace(1, 2, n) * (k + 1)
 
 
@@ -976,7 +992,8 @@ class Runner:
         # (2) the documented emodulus precedence decides which inputs are used
         excused = False
         if feat in ("emodulus", "plug_e"):
-            has_temp = "temp" in self.world.feats
+            has_temp = "temp" in self.world.feats or any(
+                o[0] == "sett" and o[1] == "temp" for o in self.done)
             scen = safe(lambda: emod_scenario(fh.root, has_temp))
             scen = scen[1] if scen[0] == "ok" else None
             # the independent numerical oracle is expensive (Delaunay of the LUT): only where
@@ -1291,6 +1308,120 @@ def triples(world, full=True):
     return out
 
 
+def switch_value(k):
+    """value a required key is set to in the switch triples (the cheapest LUT: 0.02 s per
+    interpolation instead of 0.2 s; which LUT is irrelevant for which recipe applies)"""
+    if k == ("calculation", "emodulus lut"):
+        return "HE-3D-FEM-22"
+    return CFG_VALUES[k][1 % len(CFG_VALUES[k])]
+
+
+def switch_triples(world):
+    """systematic 'read, switch, read' histories, derived from the REGISTRY: for every feature
+    with more than one recipe (and every feature with a named requirement function) and every
+    hierarchy level L: a state in which everything recipe R needs is there except ONE item —
+    a feature R requires that the dataset does not have (added as a temporary feature through
+    level L), a configuration key R requires, or a key R's requirement function looks at
+    (from its source) —; the feature is read on level L, the item is added, it is read again,
+    the item is removed (keys), it is read again.  Adding / removing the item changes WHICH
+    recipe applies or WHETHER the feature is available, often without changing anything the
+    recipe that computed the cached data hashes.  Items shared by all recipes of a feature are
+    exercised with its first recipe only.  Returns [(feature, recipe index, item, level, ops)]"""
+    common.import_dclab()
+    from dclab.rtdc_dataset.feat_anc_core import AncillaryFeature
+    from dclab.definitions import feature_exists
+    from .c06_ast import extract
+    regs = list(AncillaryFeature.features)
+    anc_names = {r.feature_name for r in regs}
+    byname = {}
+    for i, r in enumerate(regs):
+        byname.setdefault(r.feature_name, []).append(i)
+
+    def cfgkeys(r):
+        return [(sec, k) for sec, ks in r.req_config for k in ks]
+
+    def funckeys(r):
+        if getattr(r.req_func, "__name__", "<lambda>") == "<lambda>":
+            return []
+        ks = extract(r.req_func)[1]
+        return [tuple(k.split(":", 1)) for k in ks if tuple(k.split(":", 1)) in CFG_VALUES]
+
+    def addable(r):
+        return [f for f in r.req_features if f not in world.feats and f not in anc_names
+                and feature_exists(f)]
+
+    out, seen = [], set()
+    for name in sorted(byname):
+        idxs = byname[name]
+        if len(idxs) < 2 and not any(funckeys(regs[i]) for i in idxs):
+            continue
+        items_of = {}
+        for i in idxs:
+            r = regs[i]
+            ck = [k for k in cfgkeys(r) if k in CFG_VALUES]
+            items_of[i] = ([("feat", f) for f in addable(r)] + [("key", k) for k in ck]
+                           + [("fkey", k) for k in funckeys(r) if k not in ck])
+        shared = set.intersection(*[set(v) for v in items_of.values()])
+        for n, i in enumerate(idxs):
+            r = regs[i]
+            for item in items_of[i]:
+                if n > 0 and item in shared:
+                    continue
+                mine = [k for kind, k in items_of[i] if kind == "key" and ("key", k) != item]
+                for lev in range(NLEV):
+                    ops = [("delc",) + k for k in sorted({
+                        k for kind, k in set().union(*items_of.values()) if kind != "feat"})
+                        if k not in mine]
+                    ops += [("setc",) + k + (switch_value(k),) for k in mine]
+                    ops += [("sett", f, 0, 0 if f == "tmpn" else lev)
+                            for kind, f in items_of[i] if kind == "feat" and ("feat", f) != item]
+                    rd = ("read", name, lev)
+                    ops.append(rd)
+                    if item[0] == "feat":
+                        ops += [("sett", item[1], 0, 0 if item[1] == "tmpn" else lev), rd]
+                    else:
+                        vals = CFG_VALUES[item[1]]
+                        for v in ([switch_value(item[1])] if item[0] == "key" else
+                                  list(dict.fromkeys(vals))[:2]):
+                            ops += [("setc",) + item[1] + (v,), rd]
+                        ops += [("delc",) + item[1], rd]
+                    if tuple(ops) not in seen:
+                        seen.add(tuple(ops))
+                        out.append((name, i, item, lev, ops))
+    return out
+
+
+def note_failures(ctx, world, reg, ops, r, seen_classes, part, extra=""):
+    """shrink and remember one representative per (failure class, feature)"""
+    for cls in sorted({c for c, _ in r.failures}):
+        what = [x for c, x in r.failures if c == cls][0]
+        key = (cls, what.split("'")[1] if "'" in what else "")
+        if key in seen_classes or len(seen_classes) >= 12:
+            continue
+        small = shrink(ctx, world, reg, ops, cls)
+        r2 = run_history(ctx, world, reg, small, emit=False, record=cls.startswith("prec"))
+        w2 = [x for c, x in r2.failures if c == cls]
+        seen_classes[key] = (
+            (w2[0] if w2 else what) + f" — {extra}minimal history of {len(small)} operations",
+            {"part": part, "kind": world.kind, "variant": world.variant,
+             "class": cls, "ops": fmt_ops(small)})
+
+
+def switch_part(ctx, reg, seen_classes, known):
+    """the recipe that applies / the availability of a cached feature changes (always run, both
+    tiers, independent of the seed and of every budget)"""
+    world = World(ctx, "dict2", 1)          # no `temp`, no `fl3_max`: both can be added
+    for name, idx, item, lev, ops in switch_triples(world):
+        r = run_history(ctx, world, reg, ops, emit=False, record=False, share_fresh=True)
+        ctx.case(("switch", name, idx, item, lev), nontrivial=True)
+        ctx.stat("switch_triples")
+        ctx.stat("switch_item:" + item[0])
+        for k, v in r.known.items():
+            known.setdefault(k, f"'{v[0]}' in ds is True but reading raises {v[1]}")
+        note_failures(ctx, world, reg, ops, r, seen_classes, "switch",
+                      f"the applicable recipe / availability of '{name}' changes; ")
+
+
 BIG_TEMPS = ["tmpa", "ml_score_abc", "ml_score_abd"]
 BIG_DEPS = {"tmpa": ["plug_s", "plug_t", "tmpa"], "ml_score_abc": ["ml_class", "ml_score_abc"],
             "ml_score_abd": ["ml_class", "ml_score_abd"]}
@@ -1441,6 +1572,13 @@ def run(ctx):
                         (w2[0] if w2 else what) + f" — minimal history of {len(small)} operations",
                         {"part": "triples", "kind": w.kind, "variant": w.variant,
                          "class": cls, "ops": fmt_ops(small)})
+
+            # the applicable recipe / the availability changes under cached data (systematic,
+            # derived from the registry; never sampled, never budget-dependent)
+            u0, t0 = bud.units, time.time()
+            switch_part(ctx, reg, seen_classes, known)
+            ctx.stat("units_switch", bud.units - u0)
+            ctx.stat("wall_switch_s", int(time.time() - t0))
 
             ctx.stat("units_before_histories", bud.units)
             units0 = bud.units
